@@ -6,7 +6,8 @@
 From Coq Require Import List NArith ZArith Bool Arith Lia.
 From RecordUpdate Require Import RecordUpdate.
 From JV Require Import Bytes Msg SrvModel SrvLemmas SrvC06.
-From JV Require SrvNoCrash SrvC01 SrvC01b SrvC06b.
+From JV Require SrvNoCrash SrvC01 SrvC01b SrvC06b SrvC03.
+From JV Require Import SrvC08m SrvEventually.
 Import ListNotations.
 
 (* 1. slots in use + free slots = K, in every state at a window boundary ... *)
@@ -235,3 +236,28 @@ Theorem c06_cancelled_waiter_answered : forall c tr s oss k t, run (init_of c) t
   exists b rs, In (t_unit t, b, rs) (SrvC01b.unit_sends tr oss) /\ In {| r_id := t_id t; r_body := cancel_err |} rs.
 Proof. exact SrvC06b.c06_cancelled_waiter_answered. Qed.
 Print Assumptions c06_cancelled_waiter_answered.
+
+(* 9. work conservation as 'eventually' (srv/SrvEventually.v; [eventually] is spelled out in props/C01.v:
+      c01_eventually_spec).  From ANY reachable state s, with no further action of the environment, in the last state
+      s' of every maximal release-only run (at most mu_rel s windows): the slots in use are exactly the executing
+      handlers; with a free slot nobody waits for one; while fewer than K handlers are executing every request of
+      every released message has entered its handler or is finished; and a request that in s was queued for a slot, or
+      parked before Acquire with its message released, has entered its handler during the run (OStart among the
+      observations of the run), or is done (cancelled, or the built-in), or still waits with K handlers executing. *)
+Theorem c06_conserving_spec : forall c s tr s' oss, c06_conserving c s tr s' oss <->
+  slots_used s' = executing s' /\
+  (0 < sem_free s' ->
+     sem_wait s' = [] /\ forall k t, nth_error (tasks s') k = Some t -> t_st t <> TWaiting /\ at_acquire s' t = false) /\
+  (executing s' < cf_K c -> forall k t, nth_error (tasks s') k = Some t -> SrvC03.released s' (t_unit t) = true ->
+     t_st t = TSkip \/ (exists b, t_st t = TDone b) \/ t_st t = TRunning) /\
+  (forall k t, nth_error (tasks s) k = Some t -> t_st t = TWaiting \/ at_acquire s t = true ->
+     exists t', nth_error (tasks s') k = Some t' /\
+       ((t_st t' = TRunning /\ exists cn, In (OStart (t_params t) cn) (concat oss)) \/
+        (exists b, t_st t' = TDone b) \/
+        (t_st t' = TWaiting /\ sem_free s' = 0 /\ executing s' = cf_K c))).
+Proof. exact (fun c s tr s' oss => conj (fun x => x) (fun x => x)). Qed.
+Print Assumptions c06_conserving_spec.
+
+Theorem c06_eventually_work_conserving : forall c s, reach c s -> eventually s (c06_conserving c s).
+Proof. exact SrvEventually.c06_eventually_work_conserving. Qed.
+Print Assumptions c06_eventually_work_conserving.
